@@ -57,6 +57,7 @@ class _Out:
 PREAMBLE_NOPRELUDE = "let { Bool, Option } = import! std.types\n" + PREAMBLE
 _PRIM = [False]
 _BARE = [False]
+_VARPOS = [None]      # when a list: (byte offset, variable index, model type, scope size) of every variable occurrence
 
 
 def render(p, prim=False, bare=False):
@@ -78,6 +79,8 @@ def _e(o, n, depth, ctx):
     g, a, t, k = n
     E = lambda x, d=depth, c=ctx: _e(o, x, d, c)
     if g == "var":
+        if _VARPOS[0] is not None:
+            _VARPOS[0].append((sum(len(x) for x in o.parts), a, t, depth))
         o.w("v%d" % a); return
     if g == "lit":
         o.w(str(a)); return
@@ -579,3 +582,17 @@ def shape_ok(type_text, value_text):
             return None
         return None
     return chk(ty, v)
+
+
+def render_with_vars(p):
+    """(source, [(offset, variable index, model type, scope size)]) - offsets of variable occurrences in the source"""
+    _VARPOS[0] = []
+    try:
+        src = render(p)
+        return src, list(_VARPOS[0])
+    finally:
+        _VARPOS[0] = None
+
+
+GLUON_TYPE = {"I": "Int", "B": "std.types.Bool", "F1": "Int -> Int", "F2": "Int -> Int -> Int", "R": "{ x : Int, y : Int }",
+              "O": "std.types.Option Int", "L": "prog.L", "P": "(Int, Int)", "A": "Array Int"}
